@@ -80,6 +80,10 @@ type c16Input struct {
 	// afterwards). 0 = leave the repository's value for the tiny mode (EpochLength*50 = 600).
 	Cap int     `json:"cap"`
 	Ops []c16Op `json:"ops"`
+	// InPlace: the key-values handed to the cached computation keep ONE buffer per key across the
+	// computations of the case; a value change of the same length is written into that buffer in
+	// place (the state is carried over by reference from block to block)
+	InPlace bool `json:"in_place,omitempty"`
 }
 
 var c16BulkLens = []int{0, 1, 31, 32, 33, 64, 7, 40}
@@ -314,6 +318,7 @@ func c16Gen(rt *rapid.T) c16Input {
 		}
 	}
 	in.Ops = append(in.Ops, c16Op{Op: "compute", Order: rapid.IntRange(0, 4).Draw(rt, "order_last"), OSeed: 1})
+	in.InPlace = rapid.IntRange(0, 2).Draw(rt, "in_place") == 0
 	return in
 }
 
@@ -401,6 +406,7 @@ func c16Check(c *kit.Case, in c16Input) {
 		return b
 	}
 
+	inPlaceBuf := map[int]types.ByteSequence{}
 	live := map[int]c16Val{}
 	var removed []int // ids, in removal order (may hold ids that are live again: skipped at use)
 	removedVal := map[int]c16Val{}
@@ -612,7 +618,19 @@ func c16Check(c *kit.Case, in c16Input) {
 			}
 			changedSinceCompute = map[int]string{}
 
-			cached := cs.ComputeStateRootWithCache(mk())
+			cachedIn := mk()
+			if in.InPlace {
+				c.Class("values_updated_in_place")
+				for i, e := range pres {
+					if b, ok := inPlaceBuf[e.id]; ok && len(b) == len(e.val) {
+						copy(b, e.val)
+					} else {
+						inPlaceBuf[e.id] = append(types.ByteSequence{}, e.val...)
+					}
+					cachedIn[i].Value = inPlaceBuf[e.id]
+				}
+			}
+			cached := cs.ComputeStateRootWithCache(cachedIn)
 			if !bytes.Equal(uncached[:], ref[:]) {
 				c.Failf("step %d: uncached root %x differs from the bit-level reference %x for %d entries (this is C15's property)", oi, uncached, ref, len(pres))
 			}
